@@ -107,6 +107,21 @@ def run(v, O):
     return [('a+b refused', O.raises(lambda: A + B)), ('a-b refused', O.raises(lambda: A - B)),
             ('b+a refused', O.raises(lambda: B + A)), ('b-a refused', O.raises(lambda: B - A))]
 '''
+NUMDIM_SRC = '''
+import numpy as np
+def run(v, O):
+    # a plain number (zero included) and a dimensional quantity are of different dimension: refused on either side, and the quantity is not handed back as the "sum"
+    out = []
+    for label, k in (('0', 0), ('0.0', 0.0), ('-0.0', -0.0), ('1', 1), ('2.5', 2.5), ('np.float64(0)', np.float64(0)), ('[0, 0]', [0, 0])):
+        q = Quantity(v.a, v.u)
+        out.append((f'{label} + quantity refused', O.raises(lambda: k + q)))
+        out.append((f'quantity + {label} refused', O.raises(lambda: q + k)))
+        out.append((f'{label} - quantity refused', O.raises(lambda: k - q)))
+        out.append((f'quantity - {label} refused', O.raises(lambda: q - k)))
+    out.append(('sum() of a list of dimensional quantities (starts from a plain 0) refused', O.raises(lambda: sum([Quantity(v.a, v.u), Quantity(v.a, v.u)]))))
+    out.append(('symbolic number + quantity refused', O.raises(lambda: v.c + Quantity(v.a, v.u))))
+    return out
+'''
 POW_SRC = '''
 def run(v, O):
     f, d, ex = ref_units(v.u)
@@ -211,6 +226,8 @@ def scenarios(tier, seed):
     for u, nodim in NUMBER_UNITS:
         S.append(Scenario(f'number/{u}', NUMBER_SRC, {'a': 'real', 'c': 'real'}, ['v.c != 0', 'v.a != 0'], consts={'u': u, 'nodim': nodim}, preamble=PRE,
                           what=f'{u} quantity combined with a plain number on either side', samples=1))
+    for u in ('m', 'km/s', 'kg*m2/s2', 'rad'):
+        S.append(Scenario(f'number-and-dimensional/{u}', NUMDIM_SRC, {'a': 'real', 'c': 'real'}, consts={'u': u}, preamble=PRE, what=f'plain numbers (zero included) added to / subtracted from a quantity in {u}', samples=1))
     for ua, ub in MISMATCH:
         S.append(Scenario(f'mismatch/{ua}|{ub}', MISMATCH_SRC, R2, consts={'ua': ua, 'ub': ub}, preamble=PRE, what=f'adding {ua} and {ub} must be refused', samples=1))
     pun = POW_UNITS[:2] if tier == 'quick' else POW_UNITS
